@@ -16,5 +16,15 @@ PadShape == [a \in 1..Len(Shape) |-> Shape[a] + 2]
 Embed(S) == {VoxOf(PadShape, [a \in 1..Len(Shape) |-> Coord(Shape, v, a) + 1]) : v \in S}
 \* Note: embedding removes array-edge contact, which does not change the border:
 \* an edge voxel is a border voxel before (out-of-array neighbour) and after (background neighbour).
+\* the pair representation of long-range squared distances agrees with integer arithmetic wherever
+\* the latter is defined, is monotone, and the long-range maps agree with the plain ones on small grids
+ASSUME \A x \in 0..46340 : SqBig(x)[1] * K20 + SqBig(x)[2] = x * x /\ SqBig(x)[2] < K20
+ASSUME \A x \in {46340, 46341, 65535, 65536, 100000, 1048575} : LessBig(SqBig(x), SqBig(x + 1))
+ASSUME SqBig(65536) = <<4096, 0>> /\ AddBig(SqBig(65536), SqBig(3)) = <<4096, 9>>
+BigAgrees == (l = 1 /\ X # {} /\ Y # {}) =>
+    LET f == SqDistMap(Shape, X, Y)  g == SqDistMapBig(Shape, X, Y) IN
+    /\ DOMAIN f = DOMAIN g
+    /\ \A v \in DOMAIN f : g[v].sq = <<0, f[v]>> /\ g[v].lo * g[v].lo <= f[v] /\ f[v] <= g[v].hi * g[v].hi
+    /\ LET a == ASSDMilli(Shape, X, Y)  b == ASSDMilliBig(Shape, X, Y) IN b[1] <= a[2] + 1 /\ a[1] <= b[2] + 1
 PadInvariant == (l = 1 /\ X # {} /\ Y # {}) => ASSDMilli(Shape, X, Y) = ASSDMilli(PadShape, Embed(X), Embed(Y))
 =============================================================================
